@@ -9,6 +9,7 @@ mod oracle;
 mod props;
 mod rp;
 mod rrdpc;
+mod sigw;
 mod world;
 
 use std::path::PathBuf;
@@ -75,6 +76,7 @@ macro_rules! dispatch {
             "C09" => $f::<props::c09::C09>($($args),*),
             "C10" => $f::<props::c10::C10>($($args),*),
             "C11" => $f::<props::c11::C11>($($args),*),
+            "C12" => $f::<props::c12::C12>($($args),*),
             "C14" => $f::<props::c14::C14>($($args),*),
             "C17" => $f::<props::c17::C17>($($args),*),
             "C19" => $f::<props::c19::C19>($($args),*),
